@@ -227,13 +227,14 @@ def run(ctx) -> None:
 
     results = []
     scenarios = []
+    deep = ctx.tier == "thorough"
     for data in (False, True):
-        for ncloser in (1, 2):
+        for ncloser in ((1, 2, 3) if deep else (1, 2)):
             iv = dict(init_vars, data=data, close_requested=False)
-            ths = [reader_thread()]
+            ths = [reader_thread(3 if deep and ncloser < 3 else 2)]
             for c in range(ncloser):
                 ths.append(closer_thread(f"closer{c + 1}", 0))
-            verdicts, nst, ntr = explore(ths, iv, fdl, "close_requested")
+            verdicts, nst, ntr = explore(ths, iv, fdl, "close_requested", max_states=6000000)
             scenarios.append({"data_arrives": data, "closers": ncloser, "states": nst, "transitions": ntr, "verdicts": [v.kind + ": " + v.detail for v in verdicts]})
             ctx.count("typestate_states", nst)
             ctx.count("typestate_transitions", ntr)
